@@ -44,6 +44,18 @@ INPUTS: dict[str, dict[str, str]] = {
         "pb/sub/_deep.py": "from decimal import Decimal\n\n\nclass Deep:\n    def v(self) -> Decimal:\n        ...\n",
         "pb/user.py": "from pathlib import Path\n\nfrom pb._impl import Thing\n\n\ndef use(t: Thing, p: Path | None = None) -> list[Thing]:\n    ...\n",
     },
+    # one class re-exported by two packages whose alphabetical order (pd/aa/bb < pd/zz) differs from their depth order
+    "reexport-order": {
+        "pd/__init__.py": "",
+        "pd/aa/__init__.py": "",
+        "pd/aa/bb/__init__.py": "from pd.core.deep._impl2 import Gear\nfrom pd.core.deep._impl2 import turn\n",
+        "pd/aa/bb/helper.py": "def h1() -> int:\n    ...\n",
+        "pd/zz/__init__.py": "from pd.core.deep._impl2 import Gear\nfrom pd.core.deep._impl2 import turn\n",
+        "pd/zz/helper2.py": "from pd.zz import Gear\n\n\ndef h2(g: Gear) -> Gear:\n    ...\n",
+        "pd/core/__init__.py": "",
+        "pd/core/deep/__init__.py": "",
+        "pd/core/deep/_impl2.py": "class Gear:\n    def g(self) -> int:\n        ...\n\n\ndef turn(g: Gear) -> int:\n    ...\n",
+    },
     "todos-generics": {
         "pc/__init__.py": "",
         "pc/m1.py": (
@@ -262,7 +274,7 @@ def run(rep: Report, tier: str, seed: int) -> None:
         finally:
             shutil.rmtree(d, ignore_errors=True)
     rep.rule = (
-        f"Part A: all event histories of length <= {depth} over {{generate module i, re-export strings, generate_stub_data, create_stub_files, new generator}} on 3 inputs (literal|None parameters inherited by several subclasses, *args, aliased re-exports to shorter paths, foreign classes, generics, TODO-raising declarations) x naming conversion off/on, "
+        f"Part A: all event histories of length <= {depth} over {{generate module i, re-export strings, generate_stub_data, create_stub_files, new generator}} on 4 inputs (literal|None parameters inherited by several subclasses, one class re-exported by two packages whose alphabetical and depth orders differ, *args, aliased re-exports to shorter paths, foreign classes, generics, TODO-raising declarations) x naming conversion off/on, "
         "each replayed on a deepcopy of the pristine API, states deduplicated on (API JSON, generator scratch fields, directory); Part B: console script twice into one directory with the mypy cache left in place, and into a directory holding other packages' output; distinct = exploration per (input, naming) + CLI scenarios"
     )
     rep.assumptions = [
